@@ -123,9 +123,19 @@ def norm(tokens):
         or any(w in TYPE_HEADS for w in words)
     io_like = head in IO_HEADS
     callish = head in ("call", "subroutine") or "subroutine" in [t for _, t in seq[i:i + 5]]
+    depth = 0
     while j < n:
         k, t = seq[j]
+        if t in "([":
+            depth += 1
+        elif t in ")]":
+            depth -= 1
+        if t == "::" and depth == 0:
+            j += 1
+            continue
         if t == "::":
+            # inside brackets `::` is two subscript colons, which the printer may separate
+            out.extend([":", ":"])
             j += 1
             continue
         # explicit KIND= / LEN= / UNIT= keywords are optional in type selectors and I/O control lists
